@@ -18,12 +18,22 @@ CONSTANTS N, NS, NP, NW,            \* objects, traced / untraced / weak slots p
           BUG_STALE_TC, BUG_NESTED_FLAGS, \* pre-fix behaviour (regression configs only)
           OPS,                      \* subset of Env operations enabled in this configuration
           AUTOF, AUTO0,             \* auto-collect feature compiled in / enabled at the start of the run
-          SZ                        \* size in bytes of an object box in the build that replays the behaviours
+          SZ,                       \* size in bytes of an object box in the build that replays the behaviours
+          CLEAN, MaxActs,           \* cleaners feature modelled / number of cleaning actions per behaviour
+          BUG_CLEAN_REENTRANT       \* pre-fix Cleanable::clean (action run while the map is borrowed and kept alive)
 
 VARIABLES st, mon, hist
 vars == <<st, mon, hist>>
 
 Objs == 1..N
+\* the CleanerMap of object o is itself a managed allocation (a Cc<CleanerMap> owned, untraced, by o's Cleaner)
+MapOf(o) == 100 + o
+MapIds == IF CLEAN THEN {MapOf(o) : o \in Objs} ELSE {}
+IsMap(x) == x > 100
+OwnerOf(x) == x - 100
+AllIds == Objs \cup MapIds
+MAPSZ == 80
+Vacant == [c |-> 0, t |-> 0]
 MSZ == 24
 
 \* ------------------------------------------------------------------ helpers
@@ -43,43 +53,52 @@ Frame(k, o, ph) == [k |-> k, o |-> o, ph |-> ph, i |-> 0, x |-> <<>>, sv |-> <<>
 
 IsTracing(s) == s.col /\ ~s.fing /\ ~s.drp
 \* the program is unwinding: drop glue of a value whose Drop::drop panicked is still running
-Unwinding(s) == s.pan # "" \/ \E i \in DOMAIN s.stack : s.stack[i].k = "glue" /\ s.stack[i].x # ""
+Unwinding(s) == s.pan # "" \/ \E i \in DOMAIN s.stack : (s.stack[i].k \in {"glue", "mapdrop"} /\ s.stack[i].x # "") \/ (s.stack[i].k = "runact" /\ s.stack[i].x.pend # "")
 
 Init0 ==
-  [box |-> [o \in Objs |-> "free"], rc |-> [o \in Objs |-> 0], tc |-> [o \in Objs |-> 0], mark |-> [o \in Objs |-> "N"],
-   fz |-> [o \in Objs |-> FALSE], hm |-> [o \in Objs |-> FALSE], dr |-> [o \in Objs |-> FALSE],
+  [box |-> [o \in AllIds |-> "free"], rc |-> [o \in AllIds |-> 0], tc |-> [o \in AllIds |-> 0], mark |-> [o \in AllIds |-> "N"],
+   fz |-> [o \in AllIds |-> FALSE], hm |-> [o \in AllIds |-> FALSE], dr |-> [o \in AllIds |-> FALSE],
    fs |-> [o \in Objs |-> [i \in 1..NS |-> 0]], fp |-> [o \in Objs |-> [i \in 1..NP |-> 0]], fw |-> [o \in Objs |-> [i \in 1..NW |-> 0]],
-   meta |-> [o \in Objs |-> [alive |-> FALSE, wc |-> 0, acc |-> FALSE]],
+   meta |-> [o \in AllIds |-> [alive |-> FALSE, wc |-> 0, acc |-> FALSE]],
+   \* cleaners: slot map of each object's Cleaner (0 = vacant slot, else [c, t]), its free list (LIFO), borrow flag,
+   \* live Cleanable handles (action id -> owner), number of actions created
+   slots |-> [o \in Objs |-> <<>>], free |-> [o \in Objs |-> <<>>], hasmap |-> [o \in Objs |-> FALSE], borrowed |-> [o \in Objs |-> FALSE],
+   cls |-> <<>>, nact |-> 0,
    roots |-> [o \in Objs |-> 0], wroots |-> [o \in Objs |-> 0], moved |-> [o \in Objs |-> FALSE],
    pc |-> <<>>, pcSize |-> 0, buf |-> TRUE, rl |-> <<>>, nrl |-> <<>>, q |-> <<>>,
    col |-> FALSE, fing |-> FALSE, drp |-> FALSE, exec |-> 0, bytes |-> 0,
    cfg |-> [auto |-> AUTO0, pn |-> 1, pd |-> 10, bt |-> 0, thr |-> 100],
    stack |-> <<>>, pan |-> "", ft |-> <<>>, ntr |-> 0, nops |-> 0, nfaults |-> 0, ev |-> <<>>]
 
-ResetEv == [e |-> "reset", fin |-> FIN, weak |-> WEAK, dbg |-> DBG, auto |-> AUTO0, sz |-> SZ, ns |-> NS, np |-> NP, nw |-> NW, run |-> 0]
+ResetEv == [e |-> "reset", fin |-> FIN, weak |-> WEAK, dbg |-> DBG, clean |-> CLEAN, auto |-> AUTO0, sz |-> SZ, ns |-> NS, np |-> NP, nw |-> NW, run |-> 0]
 
 \* ------------------------------------------------------------------ primitives (cc.rs)
 Unbuffer(s, o) == IF s.mark[o] = "P" /\ s.buf THEN [s EXCEPT !.mark[o] = "N", !.pc = RemoveSeq(@, o), !.pcSize = @ - 1] ELSE s
 Buffer(s, o) == IF s.mark[o] # "P" /\ s.buf THEN [s EXCEPT !.pc = <<o>> \o @, !.pcSize = @ + 1, !.tc[o] = 0, !.mark[o] = "P"] ELSE s
 WeakStrong(s, o) == IF ~s.meta[o].acc THEN 0
                     ELSE IF s.rc[o] = 0 \/ s.dr[o] \/ (s.mark[o] \in {"L", "Q"} /\ s.drp) THEN 0 ELSE s.rc[o]
+MetaBlk(o) == 200 + o
+SizeOf(o) == IF IsMap(o) THEN MAPSZ ELSE SZ
 DropMeta(s, o) ==
   IF ~s.hm[o] THEN s
   ELSE IF s.meta[o].wc = 0
-       THEN Emit([s EXCEPT !.meta[o] = [alive |-> FALSE, wc |-> 0, acc |-> FALSE]], [e |-> "dealloc", blk |-> N + o, size |-> MSZ, align |-> 8, live |-> TRUE])
+       THEN Emit([s EXCEPT !.meta[o] = [alive |-> FALSE, wc |-> 0, acc |-> FALSE]], [e |-> "dealloc", blk |-> MetaBlk(o), size |-> MSZ, align |-> 8, live |-> TRUE])
        ELSE [s EXCEPT !.meta[o].acc = FALSE]
-FreeBox(s, o) ==
+FreeBox(s0, o) ==
+  LET s == IF IsMap(o) THEN [s0 EXCEPT !.slots[OwnerOf(o)] = <<>>, !.free[OwnerOf(o)] = <<>>] ELSE s0 IN
   Emit([s EXCEPT !.box[o] = "free", !.rc[o] = 0, !.tc[o] = 0, !.mark[o] = "N", !.fz[o] = FALSE, !.hm[o] = FALSE, !.dr[o] = FALSE,
-                 !.bytes = @ - SZ],
-       [e |-> "dealloc", blk |-> o, size |-> SZ, align |-> 8, live |-> TRUE])
+                 !.bytes = @ - SizeOf(o)],
+       [e |-> "dealloc", blk |-> o, size |-> SizeOf(o), align |-> 8, live |-> TRUE])
 DropWeakPtr(s, o) ==   \* Weak::drop
   LET s1 == [s EXCEPT !.meta[o].wc = @ - 1] IN
   IF s1.meta[o].wc = 0 /\ ~s1.meta[o].acc
-  THEN Emit([s1 EXCEPT !.meta[o] = [alive |-> FALSE, wc |-> 0, acc |-> FALSE]], [e |-> "dealloc", blk |-> N + o, size |-> MSZ, align |-> 8, live |-> TRUE])
+  THEN Emit([s1 EXCEPT !.meta[o] = [alive |-> FALSE, wc |-> 0, acc |-> FALSE]], [e |-> "dealloc", blk |-> MetaBlk(o), size |-> MSZ, align |-> 8, live |-> TRUE])
   ELSE s1
 
 \* ------------------------------------------------------------------ observation vector of a `ret`
-SPtrs(s, o) == (Rng(s.fs[o]) \cup Rng(s.fp[o])) \ {0}
+CapsOf(s, o) == ({s.slots[o][i].t : i \in {j \in DOMAIN s.slots[o] : s.slots[o][j].c # 0}}
+                 \cup {s.stack[i].x.t : i \in {j \in DOMAIN s.stack : s.stack[j].k = "runact" /\ s.stack[j].o = o /\ s.stack[j].ph \in {"cb", "cap"}}}) \ {0}
+SPtrs(s, o) == ((Rng(s.fs[o]) \cup Rng(s.fp[o])) \ {0}) \cup (IF CLEAN THEN CapsOf(s, o) ELSE {})
 RECURSIVE SClose(_, _)
 SClose(s, S) == LET nxt == S \cup UNION {SPtrs(s, o) : o \in {x \in S : s.box[x] = "live" \/ s.moved[x]}}
                 IN IF nxt = S THEN S ELSE SClose(s, nxt)
@@ -128,7 +147,8 @@ CcDropStep(s) ==
   CASE f.ph = "start" ->
          IF s.mark[o] \in {"L", "Q"} THEN SPop([s EXCEPT !.rc[o] = @ - 1])
          ELSE IF s.rc[o] = 1 THEN
-           IF FIN /\ ~s.fz[o]
+           IF FIN /\ ~s.fz[o] /\ IsMap(o) THEN SetTop([s EXCEPT !.fz[o] = TRUE], [f EXCEPT !.ph = "dodrop"])   \* empty finalizer, no callback
+           ELSE IF FIN /\ ~s.fz[o]
            THEN PushCb(SetTop([s EXCEPT !.fing = TRUE, !.fz[o] = TRUE], [f EXCEPT !.ph = "afterfin", !.sv = [f |-> s.fing]]), "finalize", o)
            ELSE SetTop(s, [f EXCEPT !.ph = "dodrop"])
          ELSE SPop(Buffer([s EXCEPT !.rc[o] = @ - 1], o))
@@ -139,7 +159,8 @@ CcDropStep(s) ==
     [] f.ph = "dodrop" ->
          LET s1 == Unbuffer([s EXCEPT !.rc[o] = @ - 1], o)
              s2 == [s1 EXCEPT !.drp = TRUE, !.dr[o] = WEAK, !.box[o] = "dropped"]
-         IN PushValueDrop(SetTop(s2, [f EXCEPT !.ph = "free", !.sv = [d |-> s.drp]]), o)
+         IN IF IsMap(o) THEN SPush(SetTop(s2, [f EXCEPT !.ph = "free", !.sv = [d |-> s.drp]]), [Frame("mapdrop", OwnerOf(o), "next") EXCEPT !.i = 1, !.x = ""])
+            ELSE PushValueDrop(SetTop(s2, [f EXCEPT !.ph = "free", !.sv = [d |-> s.drp]]), o)
     [] f.ph = "free" ->
          LET s1 == FreeBox(DropMeta(s, o), o) IN SPop([s1 EXCEPT !.drp = f.sv.d])
 
@@ -160,11 +181,17 @@ NextFull(s, o, j) == IF j > SlotCount THEN 0 ELSE IF SlotAt(s, o, j) # 0 THEN j 
 
 GlueStep(s) ==
   LET f == STop(s)  o == f.o IN
-  IF f.ph = "ret" THEN
+  IF f.ph = "cret" THEN
+    SetTop(Emit(s, [e |-> "ret", op |-> "gluec", a |-> o, k |-> "c", i |-> 0, panic |-> ""]), [f EXCEPT !.ph = "next"])
+  ELSE IF f.ph = "ret" THEN
     SetTop(Emit(s, [e |-> "ret", op |-> "glue", a |-> o, k |-> SlotKind(f.i), i |-> SlotIdx(f.i), panic |-> ""]), [f EXCEPT !.ph = "next", !.i = @ + 1])
   ELSE
     LET j == NextFull(s, o, f.i) IN
-    IF j = 0 THEN
+    IF j = 0 /\ CLEAN /\ s.hasmap[o] THEN
+      \* last field: the Cleaner; dropping it releases its Cc<CleanerMap>
+      SPush(SetTop(Emit([s EXCEPT !.hasmap[o] = FALSE], [e |-> "call", op |-> "gluec", a |-> o]), [f EXCEPT !.ph = "cret", !.i = SlotCount + 1]),
+            Frame("ccdrop", MapOf(o), "start"))
+    ELSE IF j = 0 THEN
       \* all fields dropped; resume the panic of Drop::drop if there was one
       IF f.x # "" THEN [SPop(s) EXCEPT !.pan = f.x] ELSE SPop(s)
     ELSE
@@ -182,14 +209,46 @@ GlueStep(s) ==
 \* a nested Cc::drop of field f.i panicked: the guard logs it, the remaining fields are still dropped
 GlueUnwind(s) ==
   LET f == STop(s) IN
-  IF f.ph = "ret"
+  IF f.ph = "cret"
+  THEN [SetTop(Emit(s, [e |-> "ret", op |-> "gluec", a |-> f.o, k |-> "c", i |-> 0, panic |-> "unwind"]), [f EXCEPT !.ph = "next", !.x = s.pan]) EXCEPT !.pan = ""]
+  ELSE IF f.ph = "ret"
   THEN [SetTop(Emit(s, [e |-> "ret", op |-> "glue", a |-> f.o, k |-> SlotKind(f.i), i |-> SlotIdx(f.i), panic |-> "unwind"]),
                [f EXCEPT !.ph = "next", !.i = @ + 1, !.x = s.pan]) EXCEPT !.pan = ""]
   ELSE \* Drop::drop itself panicked (the cb frame above was popped): fields are still dropped
        [SetTop(s, [f EXCEPT !.x = s.pan]) EXCEPT !.pan = ""]
 
+\* ------------------------------------------------------------------ cleaners (cleaners/mod.rs)
+RECURSIVE NextAct(_, _, _)
+NextAct(s, o, j) == IF j > Len(s.slots[o]) THEN 0 ELSE IF s.slots[o][j].c # 0 THEN j ELSE NextAct(s, o, j + 1)
+RunAct(o, rec) == [Frame("runact", o, "cb") EXCEPT !.x = [c |-> rec.c, t |-> rec.t, pend |-> ""]]
+PushAct(s, c) == SPush(Emit(s, [e |-> "cb", cb |-> "action", o |-> c, it |-> IsTracing(s), ok |-> TRUE]), [Frame("cb", 0, "action") EXCEPT !.x = "action", !.i = c])
+
+\* the SlotMap is dropped: every remaining action runs, in slot order
+MapDropStep(s) ==
+  LET f == STop(s)  o == f.o  j == NextAct(s, o, f.i) IN
+  IF j = 0 THEN (IF f.x # "" THEN [SPop(s) EXCEPT !.pan = f.x] ELSE SPop(s))
+  ELSE SPush(SetTop([s EXCEPT !.slots[o][j] = Vacant], [f EXCEPT !.i = j + 1]), RunAct(o, s.slots[o][j]))
+MapDropUnwind(s) == LET f == STop(s) IN [SetTop(s, [f EXCEPT !.x = s.pan]) EXCEPT !.pan = ""]   \* remaining elements are still dropped
+
+\* one cleaning action: the closure runs, then the Cc it captured (if any) is dropped
+RunActStep(s) ==
+  LET f == STop(s) IN
+  CASE f.ph = "cb" -> PushAct(SetTop(s, [f EXCEPT !.ph = "cap"]), f.x.c)
+    [] f.ph = "cap" ->
+         IF f.x.t # 0
+         THEN SPush(SetTop(Emit(s, [e |-> "call", op |-> "glue", a |-> f.o, k |-> "c", i |-> f.x.c, o |-> f.x.t]), [f EXCEPT !.ph = "capret"]), Frame("ccdrop", f.x.t, "start"))
+         ELSE (IF f.x.pend # "" THEN [SPop(s) EXCEPT !.pan = f.x.pend] ELSE SPop(s))
+    [] f.ph = "capret" ->
+         LET s1 == SPop(Emit(s, [e |-> "ret", op |-> "glue", a |-> f.o, k |-> "c", i |-> f.x.c, panic |-> ""]))
+         IN IF f.x.pend # "" THEN [s1 EXCEPT !.pan = f.x.pend] ELSE s1
+RunActUnwind(s) ==
+  LET f == STop(s) IN
+  IF f.ph = "cap" /\ f.x.t # 0 THEN [SetTop(s, [f EXCEPT !.x.pend = s.pan]) EXCEPT !.pan = ""]   \* the captured Cc is dropped by the unwinding
+  ELSE IF f.ph = "capret" THEN SPop(Emit(s, [e |-> "ret", op |-> "glue", a |-> f.o, k |-> "c", i |-> f.x.c, panic |-> "unwind"]))
+  ELSE SPop(s)
+
 \* ------------------------------------------------------------------ collection (lib.rs)
-Children(s, p) == NonEmpty(s.fs[p])
+Children(s, p) == IF IsMap(p) THEN <<>> ELSE NonEmpty(s.fs[p])
 \* Is the trace callback about to run the one that panics? returns j (children reported) or -1
 FaultJ(s) == IF s.ft # <<>> /\ s.ft[1] = s.ntr /\ ~Unwinding(s) THEN s.ft[2] ELSE -1
 
@@ -208,6 +267,9 @@ RECURSIVE RootChildren(_, _, _)
 RootChildren(s, ch, i) == IF i > Len(ch) THEN s ELSE RootChildren(RootChild(s, ch[i]), ch, i + 1)
 
 TraceCount(s0, p) ==
+  IF IsMap(p) THEN  \* CleanerMap::trace is empty and is not a user callback
+    IF s0.rc[p] = s0.tc[p] THEN [s0 EXCEPT !.nrl = <<p>> \o @, !.mark[p] = "L"] ELSE [s0 EXCEPT !.rl = <<p>> \o @, !.mark[p] = "L"]
+  ELSE
   LET s == [s0 EXCEPT !.mark[p] = "Q"]
       fj == FaultJ(s)
       ch == IF fj >= 0 THEN Take(Children(s, p), fj) ELSE Children(s, p)
@@ -219,6 +281,7 @@ TraceCount(s0, p) ==
           IN IF s3.rc[p] = s3.tc[p] THEN [s3 EXCEPT !.nrl = <<p>> \o @, !.mark[p] = "L"] ELSE [s3 EXCEPT !.rl = <<p>> \o @, !.mark[p] = "L"]
 
 TraceRoot(s, p) ==
+  IF IsMap(p) THEN s ELSE
   LET fj == FaultJ(s)
       ch == IF fj >= 0 THEN Take(Children(s, p), fj) ELSE Children(s, p)
       s1 == Emit(s, CbEv(s, "trace", p))
@@ -269,8 +332,8 @@ CollectStep(s) ==
            ELSE \* put the list back into the buffer, in front of what finalizers buffered meanwhile
              LET l == s1.nrl
                  s2 == [s1 EXCEPT !.pc = l \o @, !.pcSize = Len(l) + @, !.nrl = <<>>,
-                                  !.tc = [o \in Objs |-> IF o \in Rng(l) THEN 0 ELSE @[o]],
-                                  !.mark = [o \in Objs |-> IF o \in Rng(l) THEN "P" ELSE @[o]]]
+                                  !.tc = [o \in AllIds |-> IF o \in Rng(l) THEN 0 ELSE @[o]],
+                                  !.mark = [o \in AllIds |-> IF o \in Rng(l) THEN "P" ELSE @[o]]]
              IN SetTop(s2, [f EXCEPT !.ph = "pass"])
     [] f.ph = "drop" ->
          IF f.i <= Len(s.nrl) THEN
@@ -279,18 +342,18 @@ CollectStep(s) ==
          ELSE
            LET s1 == FreeAll(s, s.nrl, 1) IN SetTop([s1 EXCEPT !.nrl = <<>>, !.drp = f.x.sd], [f EXCEPT !.ph = "pass"])
 
-Unmark(s, l) == [s EXCEPT !.mark = [o \in Objs |-> IF o \in Rng(l) THEN "N" ELSE @[o]]]
+Unmark(s, l) == [s EXCEPT !.mark = [o \in AllIds |-> IF o \in Rng(l) THEN "N" ELSE @[o]]]
 CollectUnwind(s) ==
   LET f == STop(s)
       s1 == CASE f.ph \in {"count", "roots"} ->
                    LET a == Unmark(s, s.rl \o s.nrl \o s.q)
                        b == IF f.ph = "count" /\ ~BUG_STALE_TC
-                            THEN [a EXCEPT !.tc = [o \in Objs |-> IF o \in Rng(a.pc) THEN 0 ELSE @[o]]] ELSE a
+                            THEN [a EXCEPT !.tc = [o \in AllIds |-> IF o \in Rng(a.pc) THEN 0 ELSE @[o]]] ELSE a
                    IN [b EXCEPT !.rl = <<>>, !.nrl = <<>>, !.q = <<>>]
               [] f.ph = "fin" -> [Unmark(s, s.nrl) EXCEPT !.nrl = <<>>, !.fing = f.x.sf]
               [] f.ph = "drop" ->
                    LET a == Unmark(s, s.nrl)
-                       b == IF WEAK THEN [a EXCEPT !.dr = [o \in Objs |-> IF o \in Rng(s.nrl) THEN TRUE ELSE @[o]]] ELSE a
+                       b == IF WEAK THEN [a EXCEPT !.dr = [o \in AllIds |-> IF o \in Rng(s.nrl) THEN TRUE ELSE @[o]]] ELSE a
                    IN [b EXCEPT !.nrl = <<>>, !.drp = f.x.sd]
               [] OTHER -> s
   IN EndCollect(s1)
@@ -316,7 +379,7 @@ OpDone(s) ==
         s2 == Emit([s1 EXCEPT !.box[o] = "uninit", !.rc[o] = 0, !.tc[o] = 0, !.mark[o] = "N", !.fz[o] = FIN /\ s1.fing, !.hm[o] = TRUE, !.dr[o] = FALSE,
                               !.meta[o] = [alive |-> TRUE, wc |-> 1, acc |-> TRUE], !.bytes = @ + SZ],
                    [e |-> "alloc", k |-> "box", o |-> o, blk |-> o, size |-> SZ, align |-> 8])
-        s3 == Emit(s2, [e |-> "alloc", k |-> "meta", o |-> o, blk |-> N + o, size |-> MSZ, align |-> 8])
+        s3 == Emit(s2, [e |-> "alloc", k |-> "meta", o |-> o, blk |-> MetaBlk(o), size |-> MSZ, align |-> 8])
     IN PushCb(SetTop(s3, [f EXCEPT !.ph = "closure", !.x = [c EXCEPT !.adj = FALSE]]), "closure", o)
   ELSE IF op = "newcyc" THEN
     LET o == c.o
@@ -325,6 +388,26 @@ OpDone(s) ==
         s3 == IF f.i = 1 THEN [s2 EXCEPT !.fw[o][1] = o, !.meta[o].wc = @ + 1] ELSE s2
         s4 == DropWeakPtr(s3, o)     \* the Weak handed to the closure goes away
     IN ClearPlan(Emit(s4, RetEv(s4, op, <<>>)))
+  ELSE IF op = "register" THEN
+    LET a == c.a  m == MapOf(a)
+        s1 == adj(SPop(s))
+        s2 == IF s1.hasmap[a] THEN s1
+              ELSE Emit([s1 EXCEPT !.box[m] = "live", !.rc[m] = 1, !.tc[m] = 0, !.mark[m] = "N", !.fz[m] = FIN /\ s1.fing, !.hm[m] = FALSE, !.dr[m] = FALSE,
+                                   !.hasmap[a] = TRUE, !.bytes = @ + MAPSZ],
+                        [e |-> "alloc", k |-> "box", o |-> m, blk |-> m, size |-> MAPSZ, align |-> 8])
+        \* SlotMap::insert: most recently vacated slot first, else a new slot at the end
+        idx == IF s2.free[a] # <<>> THEN s2.free[a][Len(s2.free[a])] ELSE Len(s2.slots[a]) + 1
+        s3 == [s2 EXCEPT !.slots[a] = IF idx <= Len(@) THEN [@ EXCEPT ![idx] = [c |-> c.c, t |-> c.t]] ELSE Append(@, [c |-> c.c, t |-> c.t]),
+                         !.free[a] = IF @ # <<>> THEN SubSeq(@, 1, Len(@) - 1) ELSE @]
+        \* the Cleanable is a Weak to the map
+        s4 == IF s3.hm[m] THEN s3
+              ELSE Emit([s3 EXCEPT !.hm[m] = TRUE, !.meta[m] = [alive |-> TRUE, wc |-> 0, acc |-> TRUE]],
+                        [e |-> "alloc", k |-> "meta", o |-> m, blk |-> MetaBlk(m), size |-> MSZ, align |-> 8])
+        s5 == Unbuffer([s4 EXCEPT !.meta[m].wc = @ + 1, !.cls = (c.c :> a) @@ @], m)
+    IN ClearPlan(Emit(s5, RetEv(s5, op, <<>>)))
+  ELSE IF op = "clean" /\ f.ph = "unb" THEN
+    \* pre-fix order: the action ran under the borrow; now release it and the temporary Cc
+    SPush(SetTop([s EXCEPT !.borrowed[c.a] = FALSE], [f EXCEPT !.ph = "fin"]), Frame("ccdrop", MapOf(c.a), "start"))
   ELSE
     LET s2 == adj(SPop(s)) IN ClearPlan(Emit(s2, RetEv(s2, op, <<>>)))
 
@@ -347,13 +430,17 @@ NeedsEnv(s) == s.stack = <<>> \/ (STop(s).k = "cb" /\ s.pan = "")
 Step1(s) ==
   LET f == STop(s) IN
   IF s.pan # "" THEN
-    CASE f.k = "cb" -> SPop(Emit(s, [e |-> "cbx", cb |-> f.x, o |-> f.o, panic |-> TRUE]))
+    CASE f.k = "cb" -> SPop(Emit(s, [e |-> "cbx", cb |-> f.x, o |-> IF f.x = "action" THEN f.i ELSE f.o, panic |-> TRUE]))
+      [] f.k = "mapdrop" -> MapDropUnwind(s)
+      [] f.k = "runact" -> RunActUnwind(s)
       [] f.k = "ccdrop" -> CcDropUnwind(s)
       [] f.k = "glue" -> GlueUnwind(s)
       [] f.k = "collect" -> CollectUnwind(s)
       [] f.k = "op" -> OpUnwind(s)
   ELSE
     CASE f.k = "ccdrop" -> CcDropStep(s)
+      [] f.k = "mapdrop" -> MapDropStep(s)
+      [] f.k = "runact" -> RunActStep(s)
       [] f.k = "glue" -> GlueStep(s)
       [] f.k = "collect" -> CollectStep(s)
       [] f.k = "op" -> OpDone(s)
@@ -364,12 +451,14 @@ Run(s) == IF NeedsEnv(s) THEN s ELSE Run(Step1(s))
 \* ------------------------------------------------------------------ environment
 CbTop(s) == IF s.stack = <<>> THEN "" ELSE STop(s).x          \* kind of the running callback ("" at top level)
 SelfOf(s) == IF s.stack = <<>> THEN 0 ELSE STop(s).o
-OpenSelves(s) == {s.stack[i].o : i \in {j \in DOMAIN s.stack : s.stack[j].k = "cb" /\ s.stack[j].x # "closure"}}
+OpenSelves(s) == {s.stack[i].o : i \in {j \in DOMAIN s.stack : s.stack[j].k = "cb" /\ s.stack[j].x \notin {"closure", "action"}}}
 \* objects whose fields the program can name: through a handle, a moved-out value, or `self` of a running callback
 Acc(s) == {o \in Objs : s.roots[o] > 0 \/ s.moved[o]} \cup OpenSelves(s)
 Full(s) == CbTop(s) \in {"", "finalize", "closure", "action"}   \* full vocabulary (not in Drop impls)
-FreeId(s, o) == s.box[o] = "free" /\ ~s.meta[o].alive /\ s.roots[o] = 0 /\ s.wroots[o] = 0 /\ ~s.moved[o]
-                /\ \A a \in Objs : o \notin Rng(s.fs[a]) \cup Rng(s.fp[a]) \cup Rng(s.fw[a])
+MapGone(s, o) == ~CLEAN \/ (~s.hasmap[o] /\ s.box[MapOf(o)] = "free" /\ ~s.meta[MapOf(o)].alive /\ s.slots[o] = <<>>
+                            /\ \A c \in DOMAIN s.cls : s.cls[c] # o)
+FreeId(s, o) == s.box[o] = "free" /\ ~s.meta[o].alive /\ MapGone(s, o) /\ s.roots[o] = 0 /\ s.wroots[o] = 0 /\ ~s.moved[o]
+                /\ \A a \in Objs : o \notin Rng(s.fs[a]) \cup Rng(s.fp[a]) \cup Rng(s.fw[a]) \cup (IF CLEAN THEN CapsOf(s, a) ELSE {})
                 /\ o \notin {s.stack[i].o : i \in DOMAIN s.stack}
                 /\ o \notin {s.stack[i].x.o : i \in {j \in DOMAIN s.stack : s.stack[j].k = "op" /\ s.stack[j].x.op \in {"new", "newcyc"}}}
 Budget(s) == s.nops < MaxOps
@@ -456,7 +545,7 @@ EnvDowngrade(s, o) ==
   LET s1 == Emit(s, CallEv(s, [op |-> "downgrade", o |-> o]))
       s2 == IF s1.hm[o] THEN s1
             ELSE Emit([s1 EXCEPT !.hm[o] = TRUE, !.meta[o] = [alive |-> TRUE, wc |-> 0, acc |-> TRUE]],
-                      [e |-> "alloc", k |-> "meta", o |-> o, blk |-> N + o, size |-> MSZ, align |-> 8])
+                      [e |-> "alloc", k |-> "meta", o |-> o, blk |-> MetaBlk(o), size |-> MSZ, align |-> 8])
       s3 == Unbuffer([s2 EXCEPT !.meta[o].wc = @ + 1, !.wroots[o] = @ + 1], o)
   IN Emit(s3, RetEv(s3, "downgrade", <<>>))
 
@@ -526,14 +615,49 @@ EnvDropWN(s, o, n) ==
       s2 == [s1 EXCEPT !.meta[o].wc = @ - n]
   IN Emit(s2, RetEv(s2, "dropwn", <<>>))
 
+\* ---- cleaners
+EnvRegister(s, a, t, ft) ==
+  LET c == s.nact + 1
+      trig == ~s.hasmap[a] /\ ShouldTrigger(s)
+      s0 == IF t # 0 THEN [s EXCEPT !.roots[t] = @ - 1] ELSE s
+      s1 == Emit([s0 EXCEPT !.nact = c, !.ft = IF s.stack = <<>> /\ trig THEN ft ELSE @],
+                 CallEvPol(s, [op |-> "register", a |-> a, c |-> c, t |-> t]))
+      s2 == SPush(s1, [Frame("op", 0, "pre") EXCEPT !.x = [op |-> "register", a |-> a, c |-> c, t |-> t, adj |-> trig]])
+  IN IF trig THEN StartCollect(s2) ELSE s2
+
+SlotOfAct(s, a, c) == LET S == {j \in DOMAIN s.slots[a] : s.slots[a][j].c = c} IN IF S = {} THEN 0 ELSE CHOOSE j \in S : TRUE
+EnvClean(s, c) ==
+  LET a == s.cls[c]  m == MapOf(a)
+      s1 == Emit(s, CallEv(s, [op |-> "clean", c |-> c]))
+      opf(ph) == [Frame("op", 0, ph) EXCEPT !.x = [op |-> "clean", c |-> c, a |-> a]]
+  IN
+  IF WeakStrong(s1, m) = 0 THEN Emit(s1, RetEv(s1, "clean", <<>>))      \* the map is gone: nothing to do
+  ELSE
+    LET s2 == Unbuffer([s1 EXCEPT !.rc[m] = @ + 1], m)                  \* upgraded temporary Cc
+        j == SlotOfAct(s2, a, c)
+    IN IF s2.borrowed[a] \/ j = 0
+       THEN SPush(SPush(s2, opf("fin")), Frame("ccdrop", m, "start"))    \* nothing to run: only the temporary Cc goes away
+       ELSE LET rec == s2.slots[a][j]
+                s3 == [s2 EXCEPT !.slots[a][j] = Vacant, !.free[a] = Append(@, j)]
+            IN IF BUG_CLEAN_REENTRANT
+               THEN SPush(SPush([s3 EXCEPT !.borrowed[a] = TRUE], opf("unb")), RunAct(a, rec))
+               \* release the borrow and the temporary Cc first, then run the action
+               ELSE SPush(SPush(SPush(s3, opf("fin")), RunAct(a, rec)), Frame("ccdrop", m, "start"))
+EnvDropCl(s, c) ==
+  LET a == s.cls[c]
+      s1 == Emit([s EXCEPT !.cls = [x \in DOMAIN @ \ {c} |-> @[x]]], CallEv(s, [op |-> "dropcl", c |-> c]))
+      s2 == DropWeakPtr(s1, MapOf(a))
+  IN Emit(s2, RetEv(s2, "dropcl", <<>>))
+
 \* callback decisions
-EnvReturn(s) == LET f == STop(s) IN SPop(Emit(s, [e |-> "cbx", cb |-> f.x, o |-> f.o, panic |-> FALSE]))
+CbId(f) == IF f.x = "action" THEN f.i ELSE f.o
+EnvReturn(s) == LET f == STop(s) IN SPop(Emit(s, [e |-> "cbx", cb |-> f.x, o |-> CbId(f), panic |-> FALSE]))
 \* the new_cyclic closure returns; sw: it stored a clone of the provided Weak into the new value
 EnvReturnClosure(s, sw) ==
   LET f == STop(s)
       s1 == SPop(Emit(s, [e |-> "cbx", cb |-> "closure", o |-> f.o, panic |-> FALSE, sw |-> sw]))
   IN SetTop(s1, [STop(s1) EXCEPT !.i = IF sw THEN 1 ELSE 0])
-EnvPanic(s) == LET f == STop(s) IN [SPop(Emit(s, [e |-> "cbx", cb |-> f.x, o |-> f.o, panic |-> TRUE])) EXCEPT !.pan = "inj", !.nfaults = @ + 1]
+EnvPanic(s) == LET f == STop(s) IN [SPop(Emit(s, [e |-> "cbx", cb |-> f.x, o |-> CbId(f), panic |-> TRUE])) EXCEPT !.pan = "inj", !.nfaults = @ + 1]
 
 Do(s2) == /\ st' = Run(s2)
           /\ mon' = MonSeq(mon, st'.ev, 1)
@@ -616,12 +740,24 @@ ASat == /\ "sat" \in OPS /\ Budget(st) /\ Top0
            \/ \E o \in Objs : st.roots[o] >= MaxRoots /\ st.rc[o] = MAXRC - 1 /\ Do(EnvClone(Begin(st), o))
            \/ \E o \in Objs : WEAK /\ st.wroots[o] > 0 /\ st.roots[o] >= MaxRoots /\ WeakStrong(st, o) = MAXRC - 1 /\ Do(EnvUpgrade(Begin(st), o))
            \/ \E o \in Objs : WEAK /\ st.wroots[o] >= MaxWRoots /\ st.meta[o].wc = MAXWC - 1 /\ Do(EnvCloneW(Begin(st), o))
+ARegister == /\ "register" \in OPS /\ CLEAN /\ Budget(st) /\ Full(st) /\ st.nact < MaxActs
+             /\ \E a \in Acc(st), t \in {0} \cup Objs :
+                  /\ st.box[a] = "live"
+                  /\ (t # 0 => st.roots[t] > 0 /\ (t # a \/ st.roots[a] >= 2 \/ a \in OpenSelves(st)) /\ (st.hasmap[a] \/ ~ShouldTrigger(st)))
+                  /\ \/ Do(EnvRegister(Begin(st), a, t, <<>>))
+                     \/ \E ft \in FaultPlans(st) : ~st.hasmap[a] /\ ShouldTrigger(st) /\ st.pc # <<>> /\ Do(EnvRegister(Begin(st), a, t, ft))
+AClean == /\ "clean" \in OPS /\ CLEAN /\ Budget(st) /\ Full(st)
+          /\ \E c \in DOMAIN st.cls : Do(EnvClean(Begin(st), c))
+ADropCl == /\ "dropcl" \in OPS /\ CLEAN /\ Budget(st) /\ Full(st)
+           \* a Cleanable cannot be dropped while its own clean() is running (it is borrowed)
+           /\ \E c \in DOMAIN st.cls : (\A i \in DOMAIN st.stack : ~(st.stack[i].k = "op" /\ st.stack[i].x.op = "clean" /\ st.stack[i].x.c = c))
+                                         /\ Do(EnvDropCl(Begin(st), c))
 AReturn == /\ st.stack # <<>> /\ CbTop(st) # "closure" /\ Do(EnvReturn([st EXCEPT !.ev = <<>>]))
 AReturnClosure == /\ st.stack # <<>> /\ CbTop(st) = "closure"
                   /\ \E sw \in (IF NW > 0 THEN BOOLEAN ELSE {FALSE}) : Do(EnvReturnClosure([st EXCEPT !.ev = <<>>], sw))
 APanic == /\ st.stack # <<>> /\ st.nfaults < MaxFaults /\ ~Unwinding(st) /\ Do(EnvPanic([st EXCEPT !.ev = <<>>]))
 
-Next == ASat \/ ANewCyc \/ ASaveW \/ AWProbe \/ ASetCfg \/ AReturnClosure \/ APut \/ ATake \/ ADowngrade \/ AUpgrade \/ AUpgradeF \/ ACloneW \/ ADropW \/ ASetW \/ AClearW \/ ANew \/ AClone \/ ACloneF \/ ADrop \/ ASet \/ AClear \/ AMark \/ ACollect \/ AUnwrap \/ ADropVal \/ AFAgain \/ AReturn \/ APanic
+Next == ARegister \/ AClean \/ ADropCl \/ ASat \/ ANewCyc \/ ASaveW \/ AWProbe \/ ASetCfg \/ AReturnClosure \/ APut \/ ATake \/ ADowngrade \/ AUpgrade \/ AUpgradeF \/ ACloneW \/ ADropW \/ ASetW \/ AClearW \/ ANew \/ AClone \/ ACloneF \/ ADrop \/ ASet \/ AClear \/ AMark \/ ACollect \/ AUnwrap \/ ADropVal \/ AFAgain \/ AReturn \/ APanic
 
 Init == /\ st = Init0
         /\ mon = Mon(MonInit, ResetEv)
